@@ -287,8 +287,8 @@ class Renderer:
         if k in ("not", "bnot"):
             inner = e[1]
             txt = self.expr(inner)
-            if self.prec(inner) < PREC["NOT"]:
-                txt = self.j("(", txt, ")")
+            if self.prec(inner) < PREC["NOT"] or inner[0] in ("not", "bnot"):
+                txt = self.j("(", txt, ")")  # (the README: a NOT inside an expression must be parenthesised - that includes NOT NOT x)
             return self.j("NOT", txt)
         if k == "band":
             return self.j(self.sub(e[1], PREC["AND"]), "AND", self.sub(e[2], PREC["AND"], right=True))
